@@ -114,7 +114,12 @@ class Renderer(object):
         """Emit a value; ledger receives {"line": first line, "items": [...]}."""
         if isinstance(v, dict) and "$raw" in v:
             ledger["line"] = self.tok(v["$raw"])
+            ledger["end"] = self.line
             return
+        self._value(v, ledger)
+        ledger["end"] = self.line
+
+    def _value(self, v, ledger):
         if isinstance(v, bool):
             ledger["line"] = self.tok("True" if v else "False")
         elif isinstance(v, int):
@@ -142,7 +147,7 @@ class Renderer(object):
         elif isinstance(v, dict):
             ledger["line"] = self.tok("[")
             keys = {}
-            pairs = list(v.items())
+            pairs = sorted(v.items())
             for i, (k, val) in enumerate(pairs):
                 self.gap("list_nl")
                 keys[k] = self.string(k) if not IDENT.match(k) else self.tok(k)
@@ -187,6 +192,7 @@ class Renderer(object):
             val = {}
             self.value(v, val)
             a["value"] = val
+            a["end"] = self.line
             led["args"][name] = a
             led["arglist"].append(a)
             self.gap()
